@@ -204,6 +204,23 @@ theorem imports_resolve_in_file_map (mods : List MPath) (hd : deepestFirst mods 
       · rw [hk, hi]; exact emitted_designates _ ref cls true exact isBase (noEmpty_of_bool hn) hpre hex
       · rw [hk, hi]; exact emitted_designates _ ref cls false exact isBase (noEmpty_of_bool hn) hpre hex
 
+/-- non-vacuity of the composition: `a.b.M`, `a.b.d.X`, `a.c.Y`, `Z` — the plain module `a/c.py` importing from
+`a.b.d`, and the package file `a/b/__init__.py` importing from the root, satisfy every hypothesis -/
+example :
+    let mods : List MPath := [[n "a", n "b", n "d"], [n "a", n "c"], [n "a", n "b"], []]
+    deepestFirst mods = true ∧ covered mods = true ∧
+    (⟨[n "a", n "c"], true, .py [n "a"] (n "c"), false⟩ : Assigned) ∈ assign [] (procOrder mods) ∧
+    (⟨[n "a", n "b"], true, .init [n "a", n "b"], true⟩ : Assigned) ∈ assign [] (procOrder mods) ∧
+    [n "a", n "b", n "d"] ∈ mods ∧ namesNonempty [n "a", n "b", n "d"] = true ∧
+    ¬ ([n "a", n "c"] <+: [n "a", n "b", n "d"]) ∧ ¬ ([n "a", n "b"] <+: ([] : MPath)) := by decide
+
+/-- non-vacuity of `child_implies_init` and of the treat-dot hypothesis -/
+example :
+    let mods : List MPath := [[n "a", n "b", n "d"], [n "a", n "b"], []]
+    deepestFirst mods = true ∧ (⟨[n "a", n "b", n "d"], true⟩ : Proc) ∈ procOrder mods ∧
+    (⟨[n "a", n "b"], true, .init [n "a", n "b"], true⟩ : Assigned) ∈ assign [] (procOrder mods) ∧
+    ((fileMap mods).find? (·.1.isInit)).isSome = true := by decide
+
 /-! ### names -/
 
 /-- a sanitised file stem has the shape of an identifier (`[A-Za-z_][A-Za-z0-9_]*`) … -/
